@@ -132,3 +132,60 @@ func sameSlice(a, b interface{}) bool { return sameSliceImpl(a, b) }
 // blockSep: a and b lie in different allocation blocks of the verifier's memory model (an array-typed
 // struct field counts as a block of its own). Executable twin: disjoint memory.
 func blockSep(a, b interface{}) bool { return sepImpl(a, b) }
+
+// ---- parsed URIs ----
+
+// compOK: a component is either absent ({0,0}) or lies at or after lo, ends by 65535, and starts at or after prevEnd.
+func compOK(c PField, lo int) bool {
+	return (c.Offs != 0 || c.Len == 0) && (c.Offs == 0 || (int(c.Offs) >= lo && fend(c) <= 65535))
+}
+
+// uriEnd: end offset of the last component that is set (Offs != 0), in URI order; the scheme end if none is.
+func uriEnd(u *PsipURI) int {
+	e := fend(u.Scheme)
+	if u.User.Offs != 0 {
+		e = fend(u.User)
+	}
+	if u.Pass.Offs != 0 {
+		e = fend(u.Pass)
+	}
+	if u.Host.Offs != 0 {
+		e = fend(u.Host)
+	}
+	if u.Port.Offs != 0 {
+		e = fend(u.Port)
+	}
+	if u.Params.Offs != 0 {
+		e = fend(u.Params)
+	}
+	if u.Headers.Offs != 0 {
+		e = fend(u.Headers)
+	}
+	return e
+}
+
+// after: component c, if set, starts at or after prev and its end becomes the new prev
+func nextEnd(c PField, prev int) int {
+	if c.Offs != 0 {
+		return fend(c)
+	}
+	return prev
+}
+
+// uriOK: the shape ParseURI produces: scheme first, then the components that are set, in order and disjoint.
+func uriOK(u *PsipURI) bool {
+	e0 := fend(u.Scheme)
+	e1 := nextEnd(u.User, e0)
+	e2 := nextEnd(u.Pass, e1)
+	e3 := nextEnd(u.Host, e2)
+	e4 := nextEnd(u.Port, e3)
+	e5 := nextEnd(u.Params, e4)
+	return e0 <= 65535 && u.Scheme.Len >= 1 &&
+		compOK(u.User, e0) && compOK(u.Pass, e1) && compOK(u.Host, e2) &&
+		compOK(u.Port, e3) && compOK(u.Params, e4) && compOK(u.Headers, e5)
+}
+
+// moved: component n is component o relocated from URI start s0 to URI start s1
+func moved(n, o PField, s0, s1 int) bool {
+	return n.Len == o.Len && ((o.Offs == 0 && n.Offs == 0) || (o.Offs != 0 && int(n.Offs)-s1 == int(o.Offs)-s0))
+}
